@@ -30,6 +30,12 @@ struct Ctx {
     src_name: String,
 }
 
+static BUSY_SINCE: std::sync::LazyLock<std::sync::Arc<std::sync::atomic::AtomicU64>> =
+    std::sync::LazyLock::new(|| std::sync::Arc::new(std::sync::atomic::AtomicU64::new(0)));
+fn now_ms() -> u64 {
+    std::time::SystemTime::now().duration_since(std::time::UNIX_EPOCH).map(|d| d.as_millis() as u64).unwrap_or(0)
+}
+static LAST_PANIC_AT: std::sync::Mutex<String> = std::sync::Mutex::new(String::new());
 static ATTACHED_BIAS: std::sync::atomic::AtomicU64 = std::sync::atomic::AtomicU64::new(u64::MAX);
 
 fn bias(elf: &Elf) -> u64 {
@@ -308,7 +314,7 @@ fn run_cmd(cx: &mut Ctx, c: &Value) -> Value {
     match r {
         Ok(Ok(v)) => json!({"ok": true, "ret": v}),
         Ok(Err(e)) => json!({"ok": false, "err": e}),
-        Err(p) => json!({"ok": false, "panic": p}),
+        Err(p) => json!({"ok": false, "panic": p, "panic_at": LAST_PANIC_AT.lock().unwrap().clone()}),
     }
 }
 
@@ -326,7 +332,14 @@ fn main() {
         .map(|a| a.iter().map(|x| x.as_str().unwrap_or("").to_string()).collect())
         .unwrap_or_default();
     // a panic inside the debugger must not take the hook output with it
-    std::panic::set_hook(Box::new(|_| {}));
+    std::panic::set_hook(Box::new(|info| {
+        if let Some(l) = info.location() {
+            *LAST_PANIC_AT.lock().unwrap() = format!("{}:{}", l.file(), l.line());
+            if std::env::var_os("SESS_BACKTRACE").is_some() {
+                eprintln!("{}", std::backtrace::Backtrace::force_capture());
+            }
+        }
+    }));
     let attach = script["attach"].as_bool().unwrap_or(false);
     let mut ext_child: Option<std::process::Child> = None;
     let (d, rec, outp, pid) = if attach {
@@ -379,6 +392,34 @@ fn main() {
             let _ = ch.stdin.as_mut().unwrap().write_all(b"g");
             let _ = ch.stdin.as_mut().unwrap().flush();
         }
+        // watchdog: a command that runs the program to its end would block in the puppet's second gate
+        // (before the final report); if a command takes longer than 15 s the gate is opened
+        {
+            let si = ch.stdin.take();
+            let flag = BUSY_SINCE.clone();
+            std::thread::spawn(move || {
+                let mut si = si;
+                loop {
+                    std::thread::sleep(std::time::Duration::from_millis(500));
+                    let t = flag.load(std::sync::atomic::Ordering::Relaxed);
+                    if t == u64::MAX {
+                        // session over: open the gate for the released process
+                        if let Some(mut s) = si.take() {
+                            use std::io::Write;
+                            let _ = s.write_all(b"g");
+                        }
+                        return;
+                    }
+                    if t != 0 && now_ms().saturating_sub(t) > 15_000 {
+                        if let Some(mut s) = si.take() {
+                            use std::io::Write;
+                            let _ = s.write_all(b"g");
+                            let _ = s.flush();
+                        }
+                    }
+                }
+            });
+        }
         ext_child = Some(ch);
         (d, rec, outp, pid)
     } else {
@@ -409,7 +450,9 @@ fn main() {
                 "hooks": cx.rec.take(), "after": {"proc_state": probe::process_state(cx.pid), "tasks": probe::task_states_json(cx.pid)}}));
             continue;
         }
+        BUSY_SINCE.store(now_ms(), std::sync::atomic::Ordering::Relaxed);
         let res = run_cmd(&mut cx, c);
+        BUSY_SINCE.store(0, std::sync::atomic::Ordering::Relaxed);
         if name == "restart" {
             if let Some(p) = res["ret"]["pid"].as_i64() {
                 cx.pid = p as i32;
@@ -428,6 +471,15 @@ fn main() {
         }
     }
     // attached process released (detach / drop): look at it independently and let it finish
+    if attach && cx.dbg.is_none() && ext_child.is_some() && probe::process_state(cx.pid).map(|s| s == "t").unwrap_or(false) {
+        // the session ended in a debugger panic: the process is still traced by this (dead) session
+        unsafe { libc::kill(cx.pid, libc::SIGKILL) };
+        if let Some(mut ch) = ext_child.take() {
+            let _ = ch.wait();
+        }
+        out.emit(&json!({"ev": "end", "stdout": cx.out.stdout_string(), "stderr": cx.out.stderr_string()}));
+        return;
+    }
     if attach {
         if let Some(d) = cx.dbg.take() {
             let r = catch(move || drop(d));
@@ -447,14 +499,7 @@ fn main() {
         let dr7 = if st.is_some() { independent_dr7(cx.pid) } else { Value::Null };
         let mut code = None;
         if let Some(mut ch) = ext_child.take() {
-            {
-                use std::io::Write;
-                if let Some(si) = ch.stdin.as_mut() {
-                    let _ = si.write_all(b"g");
-                    let _ = si.flush();
-                }
-            }
-            drop(ch.stdin.take());
+            BUSY_SINCE.store(u64::MAX, std::sync::atomic::Ordering::Relaxed);
             // give it time to finish natively
             for _ in 0..100 {
                 match ch.try_wait() {
